@@ -67,3 +67,57 @@ func c03OperandHistory(r *Run) {
 		}
 	}
 }
+
+// c03OnceMemberHistory: a chain whose v-else-if member carries v-once, instantiated once per row of a loop with EVERY sequence of truth
+// assignments of length 3: each row shows exactly the first branch whose condition holds for THAT row - the marked member the first time
+// it is chosen in the render, nothing for it afterwards (v-once), and never anything else because of what an earlier row chose or skipped.
+func c03OnceMemberHistory(r *Run) {
+	rowsOf := []map[string]any{{"a": true, "b": false}, {"a": false, "b": true}, {"a": false, "b": false}, {"a": true, "b": true}}
+	for _, onceOn := range []string{"else-if", "else", "if"} {
+		attr := map[string]string{"if": "", "else-if": "", "else": ""}
+		attr[onceOn] = " v-once"
+		tpl := `<div v-for="row in rows"><p v-if="row.a"` + attr["if"] + `>[A]</p><p v-else-if="row.b"` + attr["else-if"] + `>[B]</p><p v-else` + attr["else"] + `>[C]</p><i>[end]</i></div>`
+		for i := 0; i < 4*4*4; i++ {
+			idx := []int{i % 4, (i / 4) % 4, i / 16}
+			var rows []any
+			var want []string
+			done := false
+			for _, k := range idx {
+				rows = append(rows, rowsOf[k])
+				branch := "C"
+				if rowsOf[k]["a"] == true {
+					branch = "A"
+				} else if rowsOf[k]["b"] == true {
+					branch = "B"
+				}
+				marked := map[string]string{"if": "A", "else-if": "B", "else": "C"}[onceOn]
+				if branch == marked {
+					if !done {
+						want = append(want, branch)
+					}
+					done = true
+				} else {
+					want = append(want, branch)
+				}
+				want = append(want, "end")
+			}
+			d := map[string]any{"rows": rows}
+			files := map[string]string{"p.vuego": tpl}
+			res := renderPage(files, "p.vuego", d)
+			var got []string
+			for _, m := range c03MarkRe.FindAllStringSubmatch(res.Out, -1) {
+				got = append(got, m[1])
+			}
+			name := fmt.Sprintf("once-member-history once=%s rows=%v", onceOn, idx)
+			c := &Case{Name: name, Key: name, Input: map[string]any{"stream": "operand-history", "tpl": tpl, "rows": idx}, Impl: res.canon(), Oracle: &Verdict{OK: true}, Tags: []string{"stream:once-member-history", "once:" + onceOn}}
+			if res.Err != "" || strings.Join(got, ",") != strings.Join(want, ",") {
+				cls := map[string]string{"else-if": "chain-selection:once-member-history:else-if", "if": "chain-selection:once-on-head-consumed-while-false", "else": "chain-selection:once-on-stray-else-consumed"}[onceOn]
+				c.Oracle = &Verdict{OK: false, Class: cls, Detail: fmt.Sprintf("rows %v: markers %v, expected %v (%s); template %q", idx, got, want, res.Err, tpl)}
+			}
+			r.Add(c)
+			if i%5 == 0 {
+				pendingPages = append(pendingPages, pageCase("chain", files, nil, "p.vuego", d, "placement:once-member-history"))
+			}
+		}
+	}
+}
